@@ -684,6 +684,22 @@ class Analysis:
             if a_ is not None and b_ is not None and b_.is_const() and b_.const_value() == 2:
                 cs.no_effects = True
                 return ("I", Poly.atom(("shr1", a_)) + Poly.atom(("and1", a_)))  # ceil(a / 2) = (a >> 1) + (a & 1)
+        if (fn == "core::convert::From::from" and res.startswith("<core::ptr::NonNull<T> as core::convert::From<&")) or fn in (
+                "core::ptr::NonNull::<T>::cast", "core::ptr::NonNull::<T>::as_ref", "core::ptr::NonNull::<T>::as_mut", "core::ptr::NonNull::<T>::new_unchecked",
+                "core::ptr::NonNull::<T>::from_ref", "core::ptr::NonNull::<T>::from_mut"):
+            if args and args[0][0] == "P":
+                v0 = args[0]
+                ot = self.operand_ty(cs.term["args"][0])
+                if fn.endswith(("::as_ref", "::as_mut")) and ot is not None and ot.get("k") == "ref" and not v0[2].t:
+                    # `&self` / `&mut self` on a NonNull stored in a local: the pointer it holds
+                    held = self.read_cell(st, v0[1], (), None)
+                    if held[0] == "P":
+                        v0 = held
+                    else:
+                        v0 = None
+                if v0 is not None:
+                    cs.no_effects = True
+                    return ("P", v0[1], v0[2], None)
         if fn in ("core::ptr::from_ref", "core::ptr::from_mut") and args and args[0][0] == "P":
             cs.no_effects = True
             return args[0]
@@ -749,7 +765,7 @@ class Analysis:
         "core::slice::<impl [T]>::", "core::mem::size_of", "core::mem::needs_drop", "core::cmp::min",
         "core::ptr::const_ptr::", "core::ptr::mut_ptr::", "core::slice::from_raw_parts", "core::ptr::slice_from_raw_parts",
         "core::mem::ManuallyDrop::<T>::new", "core::mem::MaybeUninit::<T>::as_", "core::mem::MaybeUninit::<T>::uninit",
-        "core::ptr::from_ref", "core::ptr::from_mut", "core::cmp::max", "core::num::<impl usize>::saturating_", "core::num::<impl usize>::min",
+        "core::ptr::from_ref", "core::ptr::from_mut", "core::cmp::max", "core::ptr::NonNull::<T>::cast", "core::ptr::NonNull::<T>::as_ref", "core::ptr::NonNull::<T>::as_mut", "core::num::<impl usize>::saturating_", "core::num::<impl usize>::min",
         "core::option::Option::<T>::is_", "core::fmt::Arguments", "core::fmt::rt::Argument", "core::panicking::",
         "core::hint::unreachable_unchecked", "core::alloc::Layout::new", "core::ptr::NonNull::<T>::dangling",
         "core::ptr::NonNull::<T>::as_ptr", "core::ptr::read", "core::iter::Iterator::enumerate", "core::iter::Iterator::zip",
